@@ -182,7 +182,9 @@ def main():
                 totals['undecided_paths'] += 1
             elif st == 'bound-exceeded' or st == 'path-budget':
                 totals['bound_exceeded'] += 1
-                if job.get('bound_is_violation'):
+                if st == 'path-budget' and job.get('bounded_exploration'):
+                    totals['path_budget_hit'] = totals.get('path_budget_hit', 0) + 1
+                elif job.get('bound_is_violation'):
                     violations.append({'entry': entry, 'case': r.get('case'), 'tag': 'bound-exceeded', 'inputs': (r.get('info') or {}).get('inputs', {}) if isinstance(r.get('info'), dict) else {}, 'rec': r})
                 else:
                     problems.append(('bound', entry, r.get('case'), r.get('info')))
@@ -211,7 +213,8 @@ def main():
                 problems.append(('vacuous', entry, None, 'cover point %r never reached' % t))
 
     # ---- replay every distinct (entry, case, tag) model natively before reporting it
-    reported = []; mismatches = []
+    reported = []; mismatches = []; kernel_only = []
+    jobs_by_entry = {j['entry']: j for j in plan}
     seen = set()
     by_case = {}
     for job in plan:
@@ -231,6 +234,19 @@ def main():
             confirmed = to
         else:
             confirmed = v['tag'] in fails
+        job_of = jobs_by_entry.get(v['entry'], {})
+        if confirmed and job_of.get('confirm_entry'):
+            # the finding was made on a kernel (one function driven directly). It is reported only if the same
+            # inputs, submitted as SOURCE TEXT through the public API (Context::interpret), misbehave as well.
+            l2, rc2, to2, err2 = run_native(job_of['confirm_entry'], rp, timeout=prop.__dict__.get('REPLAY_TIMEOUT', 30))
+            f2, _, _, _, done2 = native_summary(l2)
+            public = to2 or (rc2 is not None and rc2 != 0 and not done2) or bool(f2)
+            if not public:
+                seen.add(key)
+                totals['kernel_only'] = totals.get('kernel_only', 0) + 1
+                kernel_only.append({'entry': v['entry'], 'case': v['case'], 'tag': v['tag'], 'inputs': v['inputs'], 'note': 'reproduces on the kernel, not reachable through Context::interpret (input rejected or handled before it reaches the kernel)'})
+                continue
+            v['public'] = {'entry': job_of['confirm_entry'], 'fails': sorted(set(f2)), 'rc': rc2, 'timeout': to2, 'stderr': (err2 or '')[-300:]}
         if confirmed:
             seen.add(key)
             totals['replay_confirmed'] += 1
@@ -293,13 +309,14 @@ def main():
                     'inputs symbolic. distinct_nontrivial = distinct explored paths (entry, case, path id) that contain at least one solver-decided '
                     'branch or assertion over the symbolic inputs.',
             'samples': samples,
-            'exhaustive': bool(getattr(prop, 'exhaustive', lambda t: False)(tier)) and not soft and not undec,
+            'exhaustive': bool(getattr(prop, 'exhaustive', lambda t: False)(tier)) and not soft and not undec and not totals.get('path_budget_hit'),
             'structural_cases': totals['cases'], 'paths': totals['paths'], 'instructions_executed': totals['instr'],
             'queries_discharged': totals['queries'], 'solver_time_s': round(totals['solver_s'], 1),
             'assertions_checked': totals['asserts_checked'], 'undecided_queries': undec,
             'unsupported_paths': totals['unsupported'], 'bound_exceeded_paths': totals['bound_exceeded'], 'panic_paths': totals['panics'],
             'models_replayed_natively': totals['replayed'], 'models_confirmed_natively': totals['replay_confirmed'],
             'known_findings_hit': {k: len(v) for k, v in known_hits.items()},
+            'kernel_only_findings': kernel_only[:10],
             'cover_points_reached': sorted(covers_seen),
             'selftest_concrete_runs_compared_with_native': selftest_n,
             'crosscheck': {k: xc[k] for k in ('queries_rechecked', 'agreed', 'solver')},
